@@ -385,6 +385,9 @@ func hotFrame(dump, rpc string) string {
 	if strings.HasPrefix(best, "graph.(*WeightedAuthorizationModelGraph)") { // github.com/openfga/language weighted graph builder
 		return "language/graph.(*WeightedAuthorizationModelGraph)"
 	}
+	if strings.HasPrefix(best, "pkg/server/commands/listusers.(*listUsersQuery)") { // ListUsers: its expand* functions call each other
+		return "pkg/server/commands/listusers.(*listUsersQuery)"
+	}
 	if strings.HasPrefix(best, "internal/check.(*Resolver)") { // weighted-graph Check: its resolvers call each other
 		return "internal/check.(*Resolver)"
 	}
